@@ -931,7 +931,7 @@ fn run_base(seed: u64, shard: usize, base: usize, t: &Tier, scratch: &Path, tall
     }
     // unusual-but-valid YAML scalars in place of one number of a complete file (no-panic clause)
     if let Ok(text) = String::from_utf8(content_of(&src_a).unwrap_or_default()) {
-        let tokens = [".inf", "-.inf", ".nan", ".NaN", "+.INF", "1e400", "-1e400", "0x1F", "0o17", "1_000", "~", "null", "true", "\"0.5\"", "'0.5'", "!!float 1", "&a 1", "*a", "[1]", "{a: 1}", "1.", ".5", "+1", "1e", "deg(.inf)", "deg(1e400)", "deg()", "deg(", ")"];
+        let tokens = ["-9223372036854775808", "9223372036854775807", "9223372036854775808", "-129", "128", "255", "256", "1e19", "-0", ".inf", "-.inf", ".nan", ".NaN", "+.INF", "1e400", "-1e400", "0x1F", "0o17", "1_000", "~", "null", "true", "\"0.5\"", "'0.5'", "!!float 1", "&a 1", "*a", "[1]", "{a: 1}", "1.", ".5", "+1", "1e", "deg(.inf)", "deg(1e400)", "deg()", "deg(", ")"];
         // positions of numeric tokens: after ": " or inside arrays
         let bytes = text.as_bytes();
         let mut starts: Vec<(usize, usize)> = Vec::new();
@@ -963,6 +963,18 @@ fn run_base(seed: u64, shard: usize, base: usize, t: &Tier, scratch: &Path, tall
             let case = Case { sources: vec![Source::Raw(nb)], ops: vec![Op::Write(0)], mtime_s, regen: None, regen_reads: None };
             tally.bump("fault_unusual_yaml_scalar_substituted", 1);
             run_case(&case, scratch, tally, seen, (shard, base));
+        }
+    }
+    // a very long but valid file (a comment block of 70-200 KiB in front of, or between, the
+    // entries): nothing in the format limits the length
+    {
+        let mut lg = Rng::derive(seed, shard as u64, base as u64, "c19.long");
+        if lg.chance(0.15) {
+            let mut v = gen_variant(&mut lg);
+            v.header_bytes = lg.range_usize(66_000, 200_000);
+            let long = Case { sources: vec![Source::Model(pa.clone(), v)], ops: vec![Op::Write(0)], mtime_s, regen: None, regen_reads: None };
+            tally.bump("bases_with_a_file_longer_than_64_kib", 1);
+            run_case(&long, scratch, tally, seen, (shard, base));
         }
     }
     // a parameter NAME damaged into something YAML does not read as a string (a number, null, a
